@@ -204,7 +204,7 @@ Proof.
   { intros p Hp. destruct (Nn p Hp) as [A [B C]]. repeat split; auto.
     assert (In (cleanp p) (logged (s_log s))) as Hl.
     { unfold logged. apply in_flat_map. exists (LPath p). split; [exact Hp | left; reflexivity]. }
-    specialize (F _ Hl). destruct (lookup (s_fs s) (cleanp p)) as [[| |]|]; simpl in *; auto. }
+    assert (Some (cleanp p) <> None) as Hne by discriminate. specialize (F _ Hl Hne). destruct (lookup (s_fs s) (cleanp p)) as [[| |]|]; simpl in *; auto. }
   destruct (phase_dirs (rev (s_dirs s)) f1 f'' W1) as [Rm2 Fr2]; [| |exact U2|].
   { intros d Hd. apply in_rev in Hd. destruct (E d Hd) as [A [B Dr]]. destruct (K d Hd) as [_ Nc]. repeat split; auto.
     destruct (Fr1 (cleanp d)) as [Eq|[_ Eq]]; rewrite Eq; [|exact I].
@@ -362,7 +362,7 @@ Proof.
   - destruct (Nn p Hp) as [A [B C]]. repeat split; auto. apply Pk; [exact C|].
     assert (In (cleanp p) (logged (s_log s))) as Hl.
     { unfold logged. apply in_flat_map. exists (LPath p). split; [exact Hp | left; reflexivity]. }
-    specialize (F _ Hl). destruct (lookup (s_fs s) (cleanp p)); [discriminate | contradiction].
+    assert (Some (cleanp p) <> None) as Hne by discriminate. specialize (F _ Hl Hne). destruct (lookup (s_fs s) (cleanp p)); [discriminate | contradiction].
   - apply in_map_iff in Hp as [d [Ed Hd]]. inversion Ed; subst d. apply in_rev in Hd.
     destruct (E p Hd) as [A [B Dr]]. destruct (K p Hd) as [_ C]. repeat split; auto. apply Pk; [exact C|].
     destruct Dr as [Dr|[m Dr]]; [contradiction | rewrite Dr; discriminate].
@@ -382,4 +382,19 @@ Proof.
   destruct (lookup [([s2l "d"], NDir 493)] (q ++ [x])) eqn:L; [|contradiction].
   unfold lookup in L. destruct (cp_eqb [s2l "d"] (q ++ [x])) eqn:E; [|discriminate].
   apply cp_eqb_eq in E. destruct q as [|y [|z q]]; [left; reflexivity | discriminate | discriminate].
+Qed.
+
+(* everything in one statement, without assuming that the script runs to completion *)
+Theorem uninstall_total_partial : forall o pl f f' lg,
+  wf_plan_strict o pl = true -> o_dry o = false -> wf_fs f ->
+  do_install o pl f = (f', lg, Ok tt) ->
+  exists f'', do_uninstall f' lg = (f'', Ok tt) /\
+    (forall q, In q (logged lg) -> lookup f'' q = None) /\
+    (forall q, ~ In q (logged lg) -> lookup f'' q = lookup f' q) /\
+    (forall q, lookup f'' q = None \/ lookup f'' q = lookup f q \/ mode_only (lookup f q) (lookup f'' q)).
+Proof.
+  intros o pl f f' lg Hwf Dry W0 H.
+  destruct (uninstall_completes_partial o pl f f' lg Hwf Dry W0 H) as [f'' HU]. exists f''. split; [exact HU|].
+  destruct (uninstall_removes_log_partial o pl f f' lg f'' Hwf Dry W0 H HU) as [A B]. split; [exact A|]. split; [exact B|].
+  exact (uninstall_inverse_partial o pl f f' lg f'' Hwf Dry W0 H HU).
 Qed.
